@@ -334,6 +334,7 @@ func ReleaseAST(ast *AST) {
 	if ast == nil {
 		return
 	}
+	forgetSpan(ast)
 
 	// Clean up all statements
 	for i := range ast.Statements {
